@@ -7,7 +7,8 @@ MCNameIds == {"n_true", "n_null", "n_int", "n_float", "n_colonsp", "n_hash", "n_
               "n_bang", "n_pipe", "n_gt", "n_pct", "n_at", "n_bt", "n_squote", "n_dquote", "n_dash", "n_q", "n_lead",
               "n_trail", "n_empty", "n_uni", "n_nl", "n_tab", "n_dots", "n_bar", "n_tilde", "n_yes", "n_merge",
               "n_long", "n_tpl", "n_date", "n_comma"}
-MCPairQuick == {"all", "mockname", "exclude", "unroll-variadic", "boilerplate-file", "_anchors"}
+MCPairQuick == {"all", "mockname", "exclude", "unroll-variadic"}
+MCLevelKeysQuick == {"all", "dir", "mockname", "exclude", "_anchors", "unroll-variadic", "boilerplate-file"}
 MCPairLevels == {"pkgA", "e2"}
 MCFamQuick == {"single", "style", "null", "pair", "levels", "shape", "layout", "names", "bad"}
 MCStyleLevels == {"top", "ifaceI", "e2"}
